@@ -4,14 +4,14 @@ import DnsVerif.Props.C11
 #print axioms DnsVerif.Props.C11.wrs_single_first_max
 #print axioms DnsVerif.Props.C11.wrs_sound
 #print axioms DnsVerif.Props.C11.wrs_sound_mem
-#print axioms DnsVerif.Props.C11.wrs_count
 #print axioms DnsVerif.Props.C11.wrs_bounded
-#print axioms DnsVerif.Props.C11.zero_weight_only
+#print axioms DnsVerif.Props.C11.fam_count
+#print axioms DnsVerif.Props.C11.wrs_count
+#print axioms DnsVerif.Props.C11.weight0_never_served
 #print axioms DnsVerif.Props.C11.answer_spec
+#print axioms DnsVerif.Props.C11.zero_weight_only
 #print axioms DnsVerif.Props.C11.zero_weight_name_exists
 #print axioms DnsVerif.Props.C11.weighted_flag
 #print axioms DnsVerif.Props.C11.additional_max_one
-#print axioms DnsVerif.Props.C11.count_full_fails
-#print axioms DnsVerif.Props.C11.weight0_served
-#print axioms DnsVerif.Props.C11.count_partial
+#print axioms DnsVerif.Props.C11.count_full
 #print axioms DnsVerif.Props.C11.es_single_winner
